@@ -90,6 +90,28 @@ theorem request_only_read_before_the_handler :
     requestCalls.all (fun c => !consuming.contains c) = true ∧
     requestStores.all (["Header[]", "Host", "URL"].contains ·) = true := by decide
 
+/-- methods of `*http.Request` / `http.Header` / `*url.URL` that only read -/
+def readOnly : List String :=
+  ["BasicAuth", "Header.Get", "Header.Values", "Context", "Cookie", "Cookies", "Referer", "UserAgent", "ProtoAtLeast",
+   "URL.String", "URL.EscapedPath", "URL.Query", "URL.Hostname", "URL.Port", "URL.RequestURI", "URL.IsAbs"]
+
+/-- The stages between the client's request and the handler that live outside package proxy — the lookup
+(`route.Table.Lookup`), the access gate (`Target.AccessDeniedHTTP`), the authorization gate (`Target.Authorized` and
+every `Authorized` method of package auth, the implementations of `auth.AuthScheme`) — *judge* the request and hand
+it on as it came: the unified model (`Model.ServeHTTP.serveTarget`) passes the very same `Request` to the gates, to
+the header stage and to the URL construction. Every method they call on the request is a reading one, none of
+`Body`/`Form`/… is mentioned, and the only field stored is `URL.Host` (the lookup, while it tests a redirect target
+for pointing back at the request; the director and the websocket branch overwrite it: pin `director_stores`,
+`url_construction`). Against: `request.Header.Del("Authorization")` once the credentials matched ("do not hand them on
+to the upstream") in a scheme, or for a header no generator sends (`X-Api-Key` of a future scheme), a lookup that
+normalises `req.Host` in place. The streams run the real basic scheme (`c07.serve`), but a scheme added later has no
+stream until someone writes one; this obligation covers it the day it is added. -/
+theorem gates_only_judge_the_request :
+    gateWalked.contains "route.Table.Lookup" = true ∧ gateWalked.contains "route.Target.AccessDeniedHTTP" = true ∧
+    gateWalked.contains "route.Target.Authorized" = true ∧ gateSchemes ≠ [] ∧
+    gateBodyMentions = [] ∧ gateCalls.all (readOnly.contains ·) = true ∧
+    gateStores.all (["URL.Host"].contains ·) = true := by decide
+
 /-- `main.newHTTPProxy` (no harness runs `main`): the proxy gets the `proxy.*` section of the configuration and
 the tracing section, its transport comes from `transport.NewTransport` (what the harness installs as well), and
 the `Lookup` closure returns what `route.GetTable().Lookup` gave for this very request without storing into the
